@@ -695,14 +695,13 @@ func ToEntry(n Node) (e *Entry) {
 		if g == nil {
 			return newError(n, "unknown group: %s", s.Name)
 		}
-		if ms.usesInProgress[g] {
-			return newError(n, "grouping %s uses itself", g.Name)
+		for i, p := range ms.usesInProgress {
+			if p == g {
+				return usesCycleError(ms.usesInProgress[i:])
+			}
 		}
-		if ms.usesInProgress == nil {
-			ms.usesInProgress = map[*Grouping]bool{}
-		}
-		ms.usesInProgress[g] = true
-		defer delete(ms.usesInProgress, g)
+		ms.usesInProgress = append(ms.usesInProgress, g)
+		defer func() { ms.usesInProgress = ms.usesInProgress[:len(ms.usesInProgress)-1] }()
 		// We need to return a duplicate so we resolve properly
 		// when the group is used in multiple locations and the
 		// grouping has a leafref that references outside the group.
@@ -1096,6 +1095,24 @@ func ToEntry(n Node) (e *Entry) {
 	}
 
 	return e
+}
+
+// usesCycleError returns the error Entry for a cycle of groupings that use
+// each other.  The description starts at the grouping that comes first in the
+// source, so that it does not depend on where expansion entered the cycle.
+func usesCycleError(cycle []*Grouping) *Entry {
+	first := 0
+	for i, g := range cycle {
+		if si, sf := Source(g), Source(cycle[first]); len(si) < len(sf) || (len(si) == len(sf) && si < sf) {
+			first = i
+		}
+	}
+	names := make([]string, 0, len(cycle)+1)
+	for i := range cycle {
+		names = append(names, cycle[(first+i)%len(cycle)].Name)
+	}
+	names = append(names, cycle[first].Name)
+	return newError(cycle[first], "grouping %s uses itself (%s)", cycle[first].Name, strings.Join(names, " -> "))
 }
 
 // addExtraKeywordsToLeafEntry stores the values for unimplemented keywords in leaf entries.
